@@ -372,6 +372,13 @@ def w_hello_again_after_key_updates():
     return expect_no_crash(impl, capgen.to_pcapng(quicgen.packets(s, rng)), s.keylog)
 
 
+def w_tls13_fragmented_flight():
+    impl, tlsgen, table, _ = env()
+    rng = random.Random(33)
+    s = tlsgen.single(rng, table, 0x1301, "TLS13", collections.Counter(), schedule="records", hs13_cuts=[98], nrec=4, reclen=14, pad13=0, middlebox_ccs=False, tls13_hs_in_log=True)
+    return expect_plain(impl, tlsgen, s)
+
+
 def w_short_cid_direction():
     impl, *_ = env()
     from ref import readback
@@ -427,6 +434,7 @@ W = {  # name: (property, commit, tag, function, one-line description)
     "quic-short-cid-other-connection": ("C04", "b38f70d", "quic-short-cid-cross", w_short_cid_other_connection, "a datagram matched the short connection ID of another connection's session and was lost for its own"),
     "foreign-retry-empty-dcid": ("C03", "994a2fd", "quic-empty-dcid-long-header", w_foreign_retry_empty_dcid, "a stray long-header datagram with DCID length 0 was handed to a bystander session with a zero-length connection ID (a Retry wiped its keys)"),
     "quic-hello-again-after-key-updates": ("C03", "2cf39e4", "quic-decryptor-selection-outside-try", w_hello_again_after_key_updates, "one crafted Initial datagram with a second ServerHello after two key updates: the re-created Application decryptor list was indexed with the stale key epoch and the IndexError aborted the run"),
+    "tls13-fragmented-flight": ("C01", "1e9feed", "tls13-handshake-fragmented", w_tls13_fragmented_flight, "TLS 1.3 server flight fragmented across records inside a message (RFC 8446 5.1): the Finished was not recognised, the server direction never switched to its application keys and its application data was lost"),
     "legacy-nanosecond-pcap": ("C12", "7467fb4", "legacy-ns", w_legacy_nano, "legacy pcap with nanosecond magic: TypeError in the writer"),
 }
 
